@@ -151,7 +151,10 @@ def run(ctx):
     ok = False
     for w in warn:
         conds = [norm(x.test) for x in _anc(pm, w) if isinstance(x, ast.If)]
-        ok = ok or ('not allow_remote' in conds and any("'remote' in" in c for c in conds))
+        # the guard flag: a local that starts True and is lowered (= False) when a __getstate__ without `remote` is met
+        flags = {st.targets[0].id for st in walk_local(cf.node) if isinstance(st, ast.Assign) and isinstance(st.targets[0], ast.Name) and isinstance(st.value, ast.Constant) and st.value.value is True} & \
+                {st.targets[0].id for st in walk_local(cf.node) if isinstance(st, ast.Assign) and isinstance(st.targets[0], ast.Name) and isinstance(st.value, ast.Constant) and st.value.value is False}
+        ok = ok or (any(c == f'not {fl}' for c in conds for fl in flags) and any("'remote' in" in c for c in conds))
     ctx.check('R4', 'the metaclass raises Warning when a remote-aware __getstate__ sits below one that is not', ok, cf.short, 'inconsistent-chain-accepted',
               'a class whose opt-in is inconsistent along its inheritance chain is silently accepted', where=loc(cf, cf.node))
     # the verdict cache: written only with the final verdict, and never on the path that rejects the class
@@ -172,11 +175,12 @@ def run(ctx):
               'and silently serialises the class without the remote flag', where=loc(cf, cf.node), path=path_str(pth or []))
     ctx.floor('verdict cache stores', len(cache_stores), 1)
     reg = [c for c in calls_in(cf.node) if last_attr(c) == 'append' and 'supported_classes' in (receiver(c) or '')]
-    ok = bool(reg) and any(isinstance(x, ast.If) and norm(x.test) == 'has_remote' for x in _anc(pm, reg[0]))
+    HR = final_ret[-1] if final_ret else 'has_remote'
+    ok = bool(reg) and any(isinstance(x, ast.If) and norm(x.test) == HR for x in _anc(pm, reg[0]))
     ctx.check('R4', 'a class is registered as supported only if its MRO has a remote-aware __getstate__', ok, cf.short, 'registration-unconditional',
               'classes without a remote-aware __getstate__ are registered for remote reduction', where=loc(cf, cf.node))
     stop = [st for st in walk_local(cf.node) if isinstance(st, ast.If) and '__reduce_ex__' in norm(st.test) and '__reduce__' in norm(st.test)]
-    ok = bool(stop) and any(isinstance(x, ast.Assign) and is_name(x.targets[0], 'has_remote') and norm(x.value) == 'False' for x in stop[0].body) and any(isinstance(x, ast.Break) for x in stop[0].body)
+    ok = bool(stop) and any(isinstance(x, ast.Assign) and is_name(x.targets[0], HR) and norm(x.value) == 'False' for x in stop[0].body) and any(isinstance(x, ast.Break) for x in stop[0].body)
     ctx.check('R4', 'a class with its own __reduce__/__reduce_ex__ is left to standard pickling', ok, cf.short, 'custom-reduce-overridden',
               'classes defining their own __reduce__ are routed to the remote reducer', where=loc(cf, cf.node))
 
